@@ -265,6 +265,28 @@ Script gen_c06(uint64_t seed, const std::string& tier, Rng& r)
     Gen g(r, s);
     g.common_cfg("C06");
     s.cfg.xsputn_preempt = r.chance(0.5);
+    if (r.chance(0.08))
+    {
+        // isready racing the search thread's bestmove print: every partial write is a preemption point, the reader's
+        // readyok may land while "bestmove ..." is half written (that is what the output lock is for)
+        s.cfg.xsputn_preempt = true;
+        s.cfg.policy = POL_RANDOM;
+        int n = int(r.range(1, 3));
+        for (int i = 0; i < n; ++i)
+        {
+            g.set_position(gen_position(r, 60, 0));
+            s.ops.push_back(send("go depth " + std::to_string(r.range(1, 3))));
+            Op o = send("isready");
+            o.trig = TRIG_POINT;
+            o.point = PT_GO_BEFORE_BESTMOVE;
+            o.k = 1;
+            o.hold = false;
+            s.ops.push_back(o);
+            s.ops.push_back(simple(OP_AWAIT_READY));
+            s.ops.push_back(simple(OP_AWAIT_BEST));
+        }
+        return s;
+    }
     int rounds = int(r.range(1, 3));
     bool back_to_back = r.chance(0.25);
     if (back_to_back) s.cfg.await_task_end = false;
@@ -340,8 +362,28 @@ Script gen_session(uint64_t seed, const std::string& prop, Rng& r, int max_go, b
     }
     int ngo = int(r.range(1, max_go));
     bool have_pos = false;
+    // what a GUI does before the first game: handshake, options (the log file option makes the reader copy every line)
+    if (r.chance(0.3))
+    {
+        s.ops.push_back(send("uci"));
+        s.ops.push_back(simple(OP_AWAIT_IDLE));
+    }
+    if (r.chance(0.15)) s.ops.push_back(send("setoption name Logfile value @LOG@"));
+    if (r.chance(0.2))
+    {
+        s.ops.push_back(send("isready"));
+        s.ops.push_back(simple(OP_AWAIT_READY));
+    }
     for (int i = 0; i < ngo; ++i)
     {
+        // engine-specific inspection commands between searches (reader thread, engine idle)
+        if (have_pos && r.chance(0.15))
+        {
+            static const char* insp[] = {"printboard", "hash", "staticeval", "perft 1", "perft 2", "ponderhit"};
+            s.ops.push_back(simple(OP_AWAIT_IDLE));
+            s.ops.push_back(send(insp[r.below(6)]));
+            s.ops.push_back(simple(OP_AWAIT_IDLE));
+        }
         // new position, continuation of the game, or the same position again (table carried over)
         uint64_t k = r.below(10);
         if (!have_pos || k < 4)
